@@ -14,6 +14,7 @@ import (
 	"testing"
 	"time"
 
+	"tunnox-core/internal/client/tunnel"
 	"tunnox-core/internal/cloud/models"
 	"tunnox-core/internal/config"
 	"tunnox-core/internal/stream"
@@ -118,10 +119,19 @@ func (c *c17Client) SendTunnelCloseNotify(int64, string, string, string) error {
 // c17Local is the local connection handed to handleConnection; it records Close.
 type c17Local struct {
 	net.Conn
-	closed atomic.Bool
+	closed    atomic.Bool   // Close has completed: the connection is no longer open
+	closing   atomic.Bool   // Close has been called
+	closeGate chan struct{} // non-nil: Close takes until the gate opens (a slow transport close)
 }
 
 func (l *c17Local) Close() error {
+	l.closing.Store(true)
+	if l.closeGate != nil {
+		select {
+		case <-l.closeGate:
+		case <-time.After(c17Watchdog):
+		}
+	}
 	l.closed.Store(true)
 	if l.Conn != nil {
 		return l.Conn.Close()
@@ -274,11 +284,12 @@ func (b *c17Spin) release(n int) bool {
 // ---- world ----
 
 type c17MapWorld struct {
-	dialled int // tunnels dialled so far that are attributed to a connection
-	h       *BaseMappingHandler
-	ad      *c17Adapter
-	cl      *c17Client
-	cancel  context.CancelFunc
+	dialled   int           // tunnels dialled so far that are attributed to a connection
+	closeGate chan struct{} // given to the local connections opened from now on
+	h         *BaseMappingHandler
+	ad        *c17Adapter
+	cl        *c17Client
+	cancel    context.CancelFunc
 }
 
 // source: "config" = MappingConfig.MaxConnections, "quota" = user quota (config 0)
@@ -661,7 +672,7 @@ func (c *c17HistConn) end() {
 // return; admitted = the handler did not close it (it is established and relaying).
 func (w *c17MapWorld) open() (*c17HistConn, bool, bool) {
 	app, hs := net.Pipe()
-	l := &c17Local{Conn: hs}
+	l := &c17Local{Conn: hs, closeGate: w.closeGate}
 	done := make(chan struct{})
 	go func() { w.h.handleConnection(l); close(done) }()
 	select {
@@ -788,14 +799,130 @@ func c17HistoryTrial(run *vk.Run, L int, src string, k, j int) {
 	}
 }
 
+// c17SlowCloseTrial: the mapping is at its limit with established connections whose
+// transport close is slow (held on a gate). The peer closes one tunnel (TunnelManager.
+// CloseTunnel, what a TunnelClosed notification does); while that connection's Close is
+// still in progress, i.e. the connection is still open, new connections arrive. Oracle:
+// at no moment are more than max_connections local connections of the mapping open
+// (handed to the handler and Close not completed).
+func c17SlowCloseTrial(run *vk.Run, L int, src string) {
+	w := c17NewMapWorld(L, src)
+	defer w.close()
+	w.ad.mode.Store(1)
+	gate := make(chan struct{})
+	var once sync.Once
+	openGate := func() { once.Do(func() { close(gate) }) }
+	defer openGate()
+	w.closeGate = gate
+	cs := map[string]any{"limit": L, "limit_source": src}
+	run.Case("mapping-slow-close", cs)
+	var all []*c17HistConn
+	defer func() {
+		openGate()
+		for _, c := range all {
+			c.end()
+		}
+	}()
+	for i := 0; i < L; i++ {
+		c, adm, ok := w.open()
+		if !ok {
+			run.Count("watchdog", 1)
+			return
+		}
+		all = append(all, c)
+		if !adm {
+			run.Count("history_fill_refused_below_limit", 1)
+			return
+		}
+	}
+	tuns := w.h.GetTunnelManager().ListTunnels()
+	if len(tuns) == 0 {
+		run.Count("slowclose_no_tunnel", 1)
+		return
+	}
+	closeDone := make(chan struct{})
+	go func() {
+		_ = w.h.GetTunnelManager().CloseTunnel(tuns[0].GetID(), tunnel.CloseReasonPeerClosed)
+		close(closeDone)
+	}()
+	// wait until some established connection's Close is in progress (held on the gate)
+	closingOne := func() *c17HistConn {
+		for _, c := range all {
+			if c.local.closing.Load() && !c.local.closed.Load() {
+				return c
+			}
+		}
+		return nil
+	}
+	dl := time.Now().Add(c17Watchdog)
+	for closingOne() == nil {
+		if time.Now().After(dl) {
+			run.Count("watchdog", 1)
+			return
+		}
+		time.Sleep(200 * time.Microsecond)
+	}
+	run.Count("slowclose_trials_close_in_progress", 1)
+	// new connections arrive while that close is still in progress
+	w.closeGate = nil
+	openNow := func() int {
+		n := 0
+		for _, c := range all {
+			if !c.local.closed.Load() {
+				n++
+			}
+		}
+		return n
+	}
+	maxOpen, admittedDuring := openNow(), 0
+	for i := 0; i < 5; i++ {
+		c, adm, ok := w.open()
+		if !ok {
+			run.Count("watchdog", 1)
+			return
+		}
+		all = append(all, c)
+		if adm {
+			admittedDuring++
+		} else {
+			run.Count("slowclose_refused_while_close_in_progress", 1)
+		}
+		if n := openNow(); n > maxOpen {
+			maxOpen = n
+		}
+		if adm {
+			break
+		}
+		time.Sleep(time.Millisecond)
+	}
+	stillClosing := closingOne() != nil
+	openGate()
+	select {
+	case <-closeDone:
+	case <-time.After(c17Watchdog):
+		run.Count("watchdog", 1)
+		return
+	}
+	run.Eval(1)
+	run.Distinct(fmt.Sprintf("slowclose|%s|L%d|open%d|adm%d", src, L, maxOpen, admittedDuring))
+	cs["max_open_local_connections"] = maxOpen
+	cs["admitted_while_close_in_progress"] = admittedDuring
+	cs["old_connection_still_open_at_that_moment"] = stillClosing
+	if maxOpen > L {
+		run.Violation("C17:mapping-conn-limit|exceeded|slot-released-before-connection-closed", cs)
+	}
+}
+
 func TestVerifC17MappingHistory(t *testing.T) {
 	vk.Quiet()
 	run := vk.Start(t, "C17", "mapping-history")
 	defer run.Finish()
 	run.Rule("sequential histories on the real handler with established tunnels (DialTunnel over net.Pipe): limit L in {1,2,3} from the mapping config or the user quota; fill to L, k in {1,2,4} further connections (refused), " +
-		"j in {1..L} active connections end (application hangs up), then connections are opened until one is refused. In-package audit of activeConnCount against the live admitted connections at each quiescent point. distinct = (source, L, k, j, re-admitted)")
+		"j in {1..L} active connections end (application hangs up), then connections are opened until one is refused. slow-close: at the limit, the peer closes one tunnel while the local connection's transport Close is held on a gate, new connections arrive meanwhile: open local connections (Close not completed) <= L. In-package audit of activeConnCount against the live admitted connections at each quiescent point. distinct = (source, L, k, j, re-admitted)")
 	run.Floor("history_refusals_at_limit", 30)
 	run.Floor("history_readmissions", 30)
+	run.Floor("slowclose_trials_close_in_progress", 6)
+	run.Floor("slowclose_refused_while_close_in_progress", 6)
 	verifhook.Set(nil)
 	reps := run.Pick(1, 10)
 	for rep := 0; rep < reps; rep++ {
@@ -805,6 +932,9 @@ func TestVerifC17MappingHistory(t *testing.T) {
 					for j := 1; j <= L && run.Violations() < 20; j++ {
 						c17HistoryTrial(run, L, src, k, j)
 					}
+				}
+				for i := 0; i < 2 && run.Violations() < 20; i++ {
+					c17SlowCloseTrial(run, L, src)
 				}
 			}
 		}
